@@ -2,9 +2,10 @@ import Std.Data.HashMap
 import Driver.Util
 import Driver.C16
 import Driver.C20
+import Driver.C15
 open Driver
 
-def allEntries : List Entry := Driver.C16.entries ++ Driver.C20.entries
+def allEntries : List Entry := Driver.C16.entries ++ Driver.C20.entries ++ Driver.C15.entries
 
 def table : Std.HashMap String Handler :=
   allEntries.foldl (fun m e => m.insert (e.kind ++ " " ++ e.op) e.run) {}
